@@ -11,6 +11,7 @@ import (
 	"path/filepath"
 	"sort"
 	"strings"
+	"time"
 
 	"github.com/go-openapi/loads"
 
@@ -26,6 +27,7 @@ import (
 	"github.com/ErdemOzgen/blackdagger/internal/persistence"
 	dsclient "github.com/ErdemOzgen/blackdagger/internal/persistence/client"
 	"github.com/ErdemOzgen/blackdagger/internal/persistence/local"
+	"github.com/ErdemOzgen/blackdagger/internal/persistence/model"
 	"github.com/ErdemOzgen/blackdagger/internal/scheduler"
 	"github.com/ErdemOzgen/blackdagger/verifh/vh"
 )
@@ -40,18 +42,19 @@ type Obs struct {
 }
 
 type C19Case struct {
-	Kind    string            `json:"kind"` // c19
-	K       int               `json:"k"`
-	Stream  string            `json:"stream"`
-	Planted []string          `json:"planted"`
-	Tree    *Y                `json:"tree"`
-	Src     *Y                `json:"src,omitempty"`
-	YAML    string            `json:"yaml"`
-	FName   string            `json:"fname"`
-	CDir    string            `json:"cdir"` // canary directory (commands are `touch <cdir>/<id>`)
-	Env0    map[string]string `json:"env0"` // variables the document may read
-	Oracle  Oracle            `json:"oracle"`
-	Obs     map[string]Obs    `json:"obs"`
+	Kind     string            `json:"kind"` // c19
+	K        int               `json:"k"`
+	Stream   string            `json:"stream"`
+	Planted  []string          `json:"planted"`
+	Tree     *Y                `json:"tree"`
+	Src      *Y                `json:"src,omitempty"`
+	YAML     string            `json:"yaml"`
+	FName    string            `json:"fname"`
+	CDir     string            `json:"cdir"` // canary directory (commands are `touch <cdir>/<id>`)
+	Env0     map[string]string `json:"env0"` // variables the document may read
+	Oracle   Oracle            `json:"oracle"`
+	Obs      map[string]Obs    `json:"obs"`
+	Recorded []string          `json:"recorded,omitempty"` // output variables of the recorded run the client reads
 }
 
 // planter describes one string-valued position.
@@ -195,7 +198,7 @@ func c19Base() *Y {
 		E("steps", List(
 			Map(E("name", Str("s1")), E("command", Str("echo hi")), E("output", Str("VQ_OUT_KEEP"))),
 			Map(E("name", Str("s2")), E("executor", Map(E("type", Str("http")))), E("command", Str("GET http://x")), E("output", Str("VQ_OUT_KEEP2"))),
-			Map(E("name", Str("s3")), E("call", Map(E("function", Str("f")), E("args", Map(E("x", Str("v"))))))),
+			Map(E("name", Str("s3")), E("call", Map(E("function", Str("f")), E("args", Map(E("x", Str("v")))))), E("output", Str("VQ_OUT_FRESH"))),
 			Map(E("name", Str("s4")), E("run", Str("sub"))),
 		)),
 	)
@@ -352,6 +355,9 @@ func runC19(k int, stream string, planted []string, src *Y) *C19Case {
 	// then builds an execution graph only to validate it (scheduler.NewExecutionGraph -> node.init on every step)
 	ds := dsclient.NewDataStores(dagDir, filepath.Join(scratch, "c19-data"), filepath.Join(scratch, "c19-suspend"), dsclient.DataStoreOptions{})
 	cli := client.New(ds, "", scratch, quietLogger)
+	// a recorded run of today (written the way the agent process writes it, output variables included): listing and
+	// viewing read it
+	c.Recorded = recordRun(ds, file)
 	c.Obs["Client.GetStatus"] = observe(cdir, func() error { return errOf(cli.GetStatus(caseFile)) })
 	c.Obs["Client.GetAllStatus"] = observe(cdir, func() error {
 		_, errs, err := cli.GetAllStatus()
@@ -370,6 +376,15 @@ func runC19(k int, stream string, planted []string, src *Y) *C19Case {
 			return err
 		}
 		return errOf(cli.GetStatusByRequestID(d, "verif-no-such-request"))
+	})
+	c.Obs["Client.GetRecentHistory"] = observe(cdir, func() error {
+		d, err := dag.LoadWithoutEval(file)
+		if err != nil {
+			return err
+		}
+		cli.GetRecentHistory(d, 3)
+		_, err = cli.GetLatestStatus(d)
+		return err
 	})
 	c.Obs["Client.GetDAGSpec"] = observe(cdir, func() error { return errOf(cli.GetDAGSpec(caseFile)) })
 	c.Obs["display-graph"] = observe(cdir, func() error {
@@ -449,4 +464,48 @@ func genC19(out *vh.Out, tier string) {
 		}
 		emit("subset", ids, t)
 	}
+}
+
+// recordRun writes today's status of a finished run of the DAG into the history store, every node carrying the
+// output variables of the run ("NAME=from-the-run" for each `output:` of the definition).  Nothing is written for a
+// definition the loader rejects or without output variables.
+func recordRun(ds persistence.DataStores, file string) (names []string) {
+	defer func() {
+		if r := recover(); r != nil {
+			names = nil
+		}
+	}()
+	before := envMap()
+	defer restoreEnv(before)
+	d, err := dag.LoadWithoutEval(file)
+	if err != nil || d == nil {
+		return nil
+	}
+	rec := &dag.SyncMap{}
+	for _, st := range d.Steps {
+		if st.Output != "" && !strings.ContainsAny(st.Output, "=`$ ") {
+			rec.Store(st.Output, st.Output+"=from-the-run")
+			names = append(names, st.Output)
+		}
+	}
+	if len(names) == 0 {
+		return nil
+	}
+	var nodes []dscheduler.NodeData
+	for _, st := range d.Steps {
+		st.OutputVariables = rec
+		nodes = append(nodes, dscheduler.NodeData{Step: st, State: dscheduler.NodeState{Status: dscheduler.NodeStatusSuccess}})
+	}
+	now := time.Now()
+	status := model.NewStatus(d, nodes, dscheduler.StatusSuccess, 12345, &now, &now)
+	status.RequestID = "verif-recorded-run"
+	hs := ds.HistoryStore()
+	if err := hs.Open(d.Location, now, status.RequestID); err != nil {
+		return nil
+	}
+	if err := hs.Write(status); err != nil {
+		return nil
+	}
+	_ = hs.Close()
+	return names
 }
